@@ -89,7 +89,8 @@ Require Import X.BC.Assemble X.BC.AssembleProofs.
 
 (* Whatever is assembled decodes: every opcode is known, every operand is in range and of the kind
    its instruction expects, and the decoded instructions are the assembled ones - up to a pushed
-   constant being replaced by an earlier constant that Go's index map considers equal (code_sim). *)
+   constant being replaced by an earlier constant that Go's index map considers equal (code_sim:
+   both are hashable keys - never a float zero of its own - and equal for Go's ==). *)
 Theorem C05_decode_assemble :
   forall C p, assemble C = Some p -> exists C', decode p = DOk C' /\ code_sim C C'.
 Proof. exact decode_assemble. Qed.
@@ -101,13 +102,15 @@ Theorem C05_decode_assemble_items :
 Proof. exact decode_assemble_items. Qed.
 Print Assumptions C05_decode_assemble_items.
 
-(* decode returns the very code when no constant is a negative float zero ... *)
+(* decode returns the very code when no by-value struct constant has a negative float zero in a field
+   (code_keys_exact; float constants of their own need no condition: a zero is never shared) ... *)
 Theorem C05_decode_assemble_exact :
   forall C p, assemble C = Some p -> code_keys_exact C = true -> decode p = DOk C.
 Proof. exact decode_assemble_exact. Qed.
 Print Assumptions C05_decode_assemble_exact.
 
-(* ... and not in general: makeConstant gives -0.0 the pool index of an earlier 0.0 *)
+(* ... and not in general: Go's == on structs identifies T{X: 0.0} and T{X: -0.0}, so makeConstant gives
+   the second the pool index of the first (witness negzero_struct_code) *)
 Theorem C05_decode_assemble_exact_refuted : ~ decode_assemble_exact_full_statement.
 Proof. exact decode_assemble_exact_refuted. Qed.
 Print Assumptions C05_decode_assemble_exact_refuted.
@@ -237,3 +240,12 @@ Theorem C05_assembled_bytes_are_bytes :
   Forall is_byte (p_bytes p) /\ (Z.of_nat (List.length (p_consts p)) <= max_uint16)%Z.
 Proof. exact assemble_items_bytes. Qed.
 Print Assumptions C05_assembled_bytes_are_bytes.
+
+(* the repaired defect (fix "0.0 and -0.0 do not share a constant-pool entry"): the two zeros as
+   constants of their own are two pool entries and decode back exactly *)
+Example C05_negzero_kept_apart :
+  exists p, assemble negzero_code = Some p /\ List.length (p_consts p) = 2%nat /\
+            code_keys_exact negzero_code = true /\ decode p = DOk negzero_code.
+Proof.
+  destruct negzero_kept_apart as [p [Ha [Hc [Hk Hd]]]]. exists p. rewrite Hc. repeat split; assumption.
+Qed.
